@@ -8,6 +8,8 @@
 (* also checks the design-level obligation Conforms on everything it generates.        *)
 EXTENDS MC_Supervise, GenSample, Json
 CONSTANTS Depth,      \* number of environment operations per behaviour
+          DeepConfigs, \* configurations whose behaviours have DeepDepth operations instead
+          DeepDepth,
           PFault,     \* configurations under which the environment also makes p fail / reinstates p
           Sym         \* TRUE: break the c1/c2 symmetry (c2 only after c1 has failed once)
 
@@ -28,6 +30,7 @@ PFaultConfigs == {c \in CoreConfigs : c.typed \in {"Escalate", "Restart"} /\ c.p
 (* histories over these contain Ticks (time passing beyond the window)                                    *)
 WinConfigs == {c \in FullConfigs({"one", "all"}, {"default"}, {1, 2}, {"short"}, BOOLEAN, {FALSE}) :
                  c.typed = "Restart" /\ c.any = "none" /\ ~c.late}
+CoreWinConfigs == CoreConfigs \cup WinConfigs
 (* the seeded sample *)
 SampleConfigs  == {c \in RawConfigs : Canon(c)}
 SamplePConfigs == RawPConfigs
@@ -52,5 +55,6 @@ GNext == /\ MCNext
 GSpec == GInit /\ [][GNext]_<<vars, abs, hist>>
 
 Beh == [cfg |-> cfg, pcfg |-> pcfg, kids |-> SetToSeq(Kids), ops |-> hist]
-Emit == ~(Len(hist) = Depth /\ Quiet) \/ (PrintT(<<"BEHAVIOUR", ToJson(Beh)>>) /\ FALSE)
+DepthOf == IF cfg \in DeepConfigs THEN DeepDepth ELSE Depth
+Emit == ~(Len(hist) = DepthOf /\ Quiet) \/ (PrintT(<<"BEHAVIOUR", ToJson(Beh)>>) /\ FALSE)
 =============================================================================
